@@ -15,3 +15,5 @@ MUTANTS = [
          old="                for disc_value, schema_ref in discriminator.mapping.items():\n                    schema_name = schema_ref.split(\"/\")[-1]\n                    writer.write_line(f\"            {json.dumps(disc_value, ensure_ascii=False)}: {schema_name},\")",
          new="                for schema_name, disc_value in {r.split(\"/\")[-1]: v for v, r in discriminator.mapping.items()}.items():\n                    writer.write_line(f\"            {json.dumps(disc_value, ensure_ascii=False)}: {schema_name},\")"),
 ]
+MUTANTS.append(dict(name="union-member-order-memoised-per-type", file="core/cattrs_converter.py", expect="R14.6",
+    old='def _structure_union(data: Any, union_type: type) -> Any:\n', new='from functools import lru_cache as _lru\n\n\n@_lru(maxsize=None)\ndef _ordered_members(union_type: Any) -> tuple:\n    return tuple(a for a in get_args(union_type) if a is not type(None))\n\n\ndef _structure_union(data: Any, union_type: type) -> Any:\n'))
